@@ -7,6 +7,7 @@
    notes/fixes/selector-zero-time-stability.patch (the stability gate tests hasLastDecision instead
    of !lastDecisionTime.IsZero()).  Everything except the strict stability statement holds for both. *)
 From HV Require Import Base.Prelude Model.Selector Proofs.Selector Model.RebalanceConfig Proofs.RebalanceConfig.
+From HV Require Import Model.Detector Proofs.Detector.
 
 (* --- part B: the selector --------------------------------------------------------------------- *)
 
@@ -144,3 +145,13 @@ Theorem C19_config_irrelevant : forall hash max_records cfs ops,
   = visible (run_hist hash max_records (fun _ => default_config) 0 ops btree0).
 Proof. exact config_irrelevant. Qed.
 Print Assumptions C19_config_irrelevant.
+
+(* --- part B, observation side: SmartRebalancer.Evaluate = detector + selector ------------------ *)
+(* the decisions of any session (operations recorded and evaluations requested at arbitrary clock
+   readings, any window / minimum sample size / ring capacity) are the selector's decisions on the
+   list of extracted observations: all theorems above about [run p rule_select] apply to them *)
+Theorem C19_evaluate_is_selector_run : forall p c window min_samples capacity steps evs st,
+  map e_dec (run_session p c window min_samples capacity evs st steps)
+  = map r_dec (run p rule_select st c (session_obs window min_samples capacity evs steps)).
+Proof. exact session_is_run. Qed.
+Print Assumptions C19_evaluate_is_selector_run.
